@@ -399,3 +399,582 @@ Section Writer.
       + exists w', g'. split; [exact E|]. split; [exact Hinv'|]. rewrite Ep', Ep, <- app_assoc. reflexivity.
   Qed.
 End Writer.
+
+(* ------------------------------------------------------------ Part 2: reading the bytes back *)
+Section ReadBack.
+  Variable tp : tparams.
+  Hypothesis tp_ok : tparams_ok tp.
+  Variable crc : bytes -> N.
+  Hypothesis crc_bound : forall b, crc b < 2 ^ 32.
+  Variable compress : bytes -> bytes.
+  Variable decompress : bytes -> option bytes.
+  Hypothesis codec_ok : forall x, decompress (compress x) = Some x.
+
+  Lemma sliceN_mid {A} (pre mid post : list A) :
+    sliceN (lenN pre) (lenN pre + lenN mid) (pre ++ mid ++ post) = mid.
+  Proof. apply sliceN_app3. Qed.
+
+  Lemma nth_app_mid {A} (a : list A) x b d : nth (N.to_nat (lenN a)) (a ++ x :: b) d = x.
+  Proof. unfold lenN. rewrite Nat2N.id. rewrite app_nth2 by lia. rewrite Nat.sub_diag. reflexivity. Qed.
+
+  (* a block written by writeBlock is read back by readRawBlock, with or without verification *)
+  Lemma read_wblock pre content post sn verify :
+    let bsh := write_block tp crc compress (lenN pre) content sn in
+    lenN (fst bsh) < 2 ^ 62 ->
+    read_raw_block tp crc decompress (pre ++ fst bsh ++ post) (snd bsh) verify = Ok content.
+  Proof.
+    destruct tp_ok as (Htl & _ & _ & _ & Hty & _).
+    unfold write_block. cbv zeta.
+    set (payload := if sn then compress content else content).
+    set (ty := if sn then tp_typeSnappy tp else tp_typeNone tp).
+    assert (Eb : (if sn then compress content ++ [tp_typeSnappy tp] else content ++ [tp_typeNone tp]) = payload ++ [ty])
+      by (unfold payload, ty; destruct sn; reflexivity).
+    rewrite Eb. cbn [fst snd]. intros Hsz.
+    set (crcv := crc (payload ++ [ty])).
+    assert (Hl1 : lenN (payload ++ [ty]) = lenN payload + 1) by (rewrite lenN_app; reflexivity).
+    rewrite lenN_app, Hl1, lenN_le32 in Hsz.
+    unfold read_raw_block. cbn [bh_off bh_len]. rewrite Hl1, Htl.
+    replace (lenN payload + 1 - 1) with (lenN payload) by lia.
+    assert (B : 2 ^ 62 < 2 ^ 63) by (apply N.pow_lt_mono_r; lia).
+    rewrite two63_eq. replace (2 ^ 63 <=? lenN payload + 5) with false by lia.
+    assert (Eraw : sliceN (lenN pre) (lenN pre + lenN payload + 5) (pre ++ ((payload ++ [ty]) ++ le32 crcv) ++ post)
+                   = payload ++ [ty] ++ le32 crcv).
+    { replace (lenN pre + lenN payload + 5) with (lenN pre + lenN (payload ++ [ty] ++ le32 crcv))
+        by (rewrite !lenN_app, lenN_le32; change (lenN [ty]) with 1; lia).
+      rewrite <- (app_assoc payload). apply sliceN_mid. }
+    rewrite Eraw.
+    assert (Hlr : lenN (payload ++ [ty] ++ le32 crcv) = lenN payload + 5)
+      by (rewrite !lenN_app, lenN_le32; change (lenN [ty]) with 1; lia).
+    rewrite Hlr. replace (lenN payload + 5 <? lenN payload + 5) with false by lia.
+    assert (Edrop : dropN (lenN payload + 1) (payload ++ [ty] ++ le32 crcv) = le32 crcv).
+    { rewrite app_assoc. rewrite <- Hl1. apply dropN_app. }
+    assert (Etake : takeN (lenN payload + 1) (payload ++ [ty] ++ le32 crcv) = payload ++ [ty]).
+    { rewrite app_assoc. rewrite <- Hl1. apply takeN_app. }
+    rewrite Edrop, Etake, (le32_decode crcv (crc_bound _)). fold crcv. rewrite N.eqb_refl. cbn [negb]. rewrite andb_false_r.
+    change ([ty] ++ le32 crcv) with (ty :: le32 crcv). rewrite nth_app_mid.
+    change (ty :: le32 crcv) with ([ty] ++ le32 crcv).
+    assert (Etk : takeN (lenN payload) (payload ++ [ty] ++ le32 crcv) = payload) by apply takeN_app.
+    rewrite Etk. unfold ty, payload. destruct sn.
+    - replace (tp_typeSnappy tp =? tp_typeNone tp) with false by (symmetry; apply N.eqb_neq; congruence).
+      rewrite N.eqb_refl, codec_ok. reflexivity.
+    - rewrite N.eqb_refl. reflexivity.
+  Qed.
+End ReadBack.
+
+(* ------------------------------------------------------------ Part 3: Close *)
+Section Close.
+  Variable tp : tparams.
+  Variable crc : bytes -> N.
+  Variable compress : bytes -> bytes.
+  Variable c : comparer.
+  Hypothesis c_ok : comparer_ok c.
+  Hypothesis empty_least : forall k, cmp c [] k <> Gt.
+  Variable blockSize : N.
+  Variable ri : N.
+  Hypothesis ri_pos : 1 <= ri.
+  Variable snappy : bool.
+  Hypothesis plen_pos : forall b, plen tp crc compress ri snappy b <> 0.
+
+  Local Notation wbytes := (wbytes tp crc compress ri snappy).
+  Local Notation plen := (plen tp crc compress ri snappy).
+  Local Notation handles_from := (handles_from tp crc compress ri snappy).
+  Local Notation out_of := (out_of tp crc compress ri snappy).
+  Local Notation winv := (winv tp crc compress c ri snappy).
+
+  (* flushPendingBH in general: the pending handle gets its separator *)
+  Lemma flush_pending_gen w bl seps prev key :
+    bl <> [] -> S (length seps) = length bl ->
+    tw_pending w = last (handles_from 0 bl) bh0 -> bh_len (tw_pending w) <> 0 ->
+    tw_data w = mkBW [] 0 prev [] ->
+    tw_index w = index_of seps (firstn (length seps) (handles_from 0 bl)) ->
+    let s := match (match key with [] => succ c prev | _ => sep c prev key end) with Some s => s | None => prev end in
+    let w' := tw_flush_pending c w key in
+    tw_out w' = tw_out w /\ tw_n w' = tw_n w /\ tw_pending w' = mkBH 0 0 /\
+    tw_data w' = mkBW [] 0 [] [] /\ tw_fblocks w' = tw_fblocks w /\
+    tw_index w' = index_of (seps ++ [s]) (handles_from 0 bl).
+  Proof.
+    intros Hd Hl Hp Hpl Hdata Hidx s w'. unfold w', tw_flush_pending.
+    replace (bh_len (tw_pending w) =? 0) with false by lia.
+    rewrite Hdata. cbn [bw_prev bw_buf bw_n bw_restarts tw_out tw_n tw_pending tw_data tw_curkeys tw_fblocks tw_index].
+    fold s. repeat split.
+    rewrite Hidx, Hp, (index_of_snoc ri ri_pos).
+    - f_equal. rewrite <- (firstn_all (handles_from 0 bl)) at 3. rewrite handles_from_length.
+      rewrite (firstn_handles_snoc tp crc compress ri ri_pos snappy plen_pos bl Hd). f_equal. f_equal. lia.
+    - rewrite firstn_length, handles_from_length. lia.
+  Qed.
+
+  (* the final law: every block is below its separator, every separator below the next block *)
+  Definition seps_final (seps : list bytes) (bl : list (list kv)) : Prop :=
+    forall i, (i < length bl)%nat ->
+      cmp c (lk (nth i bl [])) (nth i seps []) <> Gt /\
+      ((S i < length bl)%nat -> cmp c (nth i seps []) (fk (nth (S i) bl [])) = Lt).
+
+  (* the state Close reaches after writing the last data block and flushing its handle *)
+  Record closed (w2 : twriter) (bl : list (list kv)) (seps : list bytes) : Prop := {
+    cl_out : tw_out w2 = out_of bl;
+    cl_index : tw_index w2 = index_of seps (handles_from 0 bl);
+    cl_len : length seps = length bl;
+    cl_data : tw_data w2 = mkBW [] 0 [] [];
+    cl_ne : bl <> [];
+    cl_blocks : Forall (fun b => b <> []) bl \/ bl = [[]];
+    cl_law : seps_final seps bl
+  }.
+
+  Lemma succ_le prev : cmp c prev (match succ c prev with Some s => s | None => prev end) <> Gt.
+  Proof.
+    destruct (succ c prev) as [s|] eqn:E; [apply (succ_ok c c_ok) in E; exact E | apply (OrderProofs.le_refl c c_ok)].
+  Qed.
+
+  Theorem close_state w g : winv w g ->
+    let w1 := if (0 <? bw_n (tw_data w)) || (tw_n w =? 0) then tw_finish_block tp crc compress snappy w else w in
+    let w2 := tw_flush_pending c w1 [] in
+    exists bl seps, closed w2 bl seps /\ concat bl = concat (g_done g) ++ g_cur g.
+  Proof.
+    intros Hinv w1 w2.
+    pose proof (wi_ne _ _ _ _ _ _ w g Hinv) as Hne.
+    destruct (wi_mode _ _ _ _ _ _ w g Hinv) as [(Hc & Hd & Hl & Hp & Hpl & Hdata) | (Hp & Hl & Hdata & Hcd)].
+    - (* a finished block is pending: nothing to finish *)
+      assert (Hn : tw_n w <> 0).
+      { rewrite (wi_n _ _ _ _ _ _ w g Hinv), Hc, app_nil_r.
+        destruct (exists_last Hd) as (l & b & E). rewrite E in *. rewrite concat_app, lenN_app. cbn [concat].
+        rewrite app_nil_r. apply Forall_app in Hne as [_ Hb]. inversion Hb as [|? ? Hb1 _]; subst.
+        destruct b; [congruence|]. rewrite lenN_cons. lia. }
+      assert (Ew1 : w1 = w).
+      { unfold w1. rewrite Hdata. cbn [bw_n]. replace (tw_n w =? 0) with false by lia. reflexivity. }
+      unfold w2. rewrite Ew1.
+      pose proof (wi_index _ _ _ _ _ _ w g Hinv) as Hidx.
+      destruct (flush_pending_gen w (g_done g) (g_seps g) (lk (last (g_done g) [])) [] Hd Hl Hp Hpl Hdata Hidx)
+        as (E1 & E2 & E3 & E4 & _ & E6).
+      set (s := match succ c (lk (last (g_done g) [])) with Some s => s | None => lk (last (g_done g) []) end) in *.
+      exists (g_done g), (g_seps g ++ [s]). split; [|rewrite Hc, app_nil_r; reflexivity].
+      constructor.
+      + rewrite E1. exact (wi_out _ _ _ _ _ _ w g Hinv).
+      + exact E6.
+      + rewrite app_length. cbn [length]. lia.
+      + exact E4.
+      + exact Hd.
+      + left. exact Hne.
+      + pose proof (wi_seps _ _ _ _ _ _ w g Hinv) as Hok. unfold g_all in Hok. rewrite Hc, app_nil_r in Hok.
+        intros i Hi. destruct (Nat.eq_dec i (length (g_seps g))) as [->|Hni].
+        * rewrite app_nth2 by lia. rewrite Nat.sub_diag. cbn [nth].
+          replace (length (g_seps g)) with (length (g_done g) - 1)%nat by lia.
+          rewrite (nth_last ri ri_pos (g_done g) [] Hd). split; [apply succ_le | intros; lia].
+        * assert (Hi' : (i < length (g_seps g))%nat) by lia.
+          rewrite (app_nth1 (g_seps g) [s] [] Hi'). apply Hok. exact Hi'.
+    - (* a block is being built, or the table is empty: finish it *)
+      assert (Ew1 : w1 = tw_finish_block tp crc compress snappy w).
+      { unfold w1. destruct (g_cur g) as [|x0 cur0] eqn:Ec.
+        - rewrite (wi_n _ _ _ _ _ _ w g Hinv), Ec, (Hcd eq_refl). cbn. rewrite orb_true_r. reflexivity.
+        - rewrite Hdata, bw_append_all_spec. cbn [bw_n]. rewrite lenN_cons.
+          replace (0 <? 0 + (1 + lenN cur0)) with true by lia. reflexivity. }
+      set (cur := g_cur g) in *.
+      assert (Efin : bw_finish (tw_data w) = block_build ri cur) by (rewrite Hdata; reflexivity).
+      set (bl := g_done g ++ [cur]).
+      assert (Hbl : bl <> []) by (unfold bl; destruct (g_done g); discriminate).
+      (* the state after finishBlock *)
+      assert (F : tw_out w1 = out_of bl /\ tw_pending w1 = last (handles_from 0 bl) bh0 /\
+                  tw_data w1 = mkBW [] 0 (last_key [] cur) [] /\ tw_index w1 = tw_index w).
+      { rewrite Ew1. unfold tw_finish_block. rewrite Efin, (write_block_off tp crc compress snappy (lenN (tw_out w)) (block_build ri cur)).
+        cbn [tw_out tw_pending tw_data tw_index]. fold (wbytes cur). fold (plen cur).
+        split; [|split; [|split]].
+        - rewrite (wi_out _ _ _ _ _ _ w g Hinv). unfold bl, TableWriteProofs.out_of. rewrite map_app, concat_app. cbn [map concat]. rewrite app_nil_r. reflexivity.
+        - unfold bl. rewrite (handles_from_app tp crc compress ri ri_pos snappy). cbn [TableWriteProofs.handles_from]. rewrite last_last.
+          rewrite (wi_out _ _ _ _ _ _ w g Hinv). reflexivity.
+        - unfold bw_reset. rewrite Hdata, bw_append_all_spec. cbn [bw_prev]. reflexivity.
+        - reflexivity. }
+      destruct F as (F1 & F2 & F3 & F4).
+      assert (Hidx : tw_index w1 = index_of (g_seps g) (firstn (length (g_seps g)) (handles_from 0 bl))).
+      { rewrite F4, (wi_index _ _ _ _ _ _ w g Hinv). f_equal. unfold bl. rewrite (handles_from_app tp crc compress ri ri_pos snappy), firstn_app, handles_from_length, Hl, Nat.sub_diag.
+        cbn [firstn]. rewrite app_nil_r. reflexivity. }
+      assert (Hpl : bh_len (tw_pending w1) <> 0).
+      { rewrite F2. unfold bl. rewrite (handles_from_app tp crc compress ri ri_pos snappy). cbn [TableWriteProofs.handles_from]. rewrite last_last. cbn [bh_len]. apply plen_pos. }
+      assert (Hl' : S (length (g_seps g)) = length bl) by (unfold bl; rewrite app_length; cbn [length]; lia).
+      destruct (flush_pending_gen w1 bl (g_seps g) (last_key [] cur) [] Hbl Hl' F2 Hpl F3 Hidx)
+        as (E1 & E2 & E3 & E4 & _ & E6).
+      set (s := match succ c (last_key [] cur) with Some s => s | None => last_key [] cur end) in *.
+      exists bl, (g_seps g ++ [s]). split.
+      + constructor.
+        * unfold w2. rewrite E1. exact F1.
+        * exact E6.
+        * rewrite app_length. cbn [length]. lia.
+        * exact E4.
+        * exact Hbl.
+        * destruct cur as [|x0 cur0] eqn:Ec.
+          -- right. unfold bl. rewrite (Hcd eq_refl). reflexivity.
+          -- left. unfold bl. apply Forall_app. split; [exact Hne | constructor; [discriminate | constructor]].
+        * pose proof (wi_seps _ _ _ _ _ _ w g Hinv) as Hok. unfold g_all in Hok. fold cur in Hok.
+          intros i Hi. destruct (Nat.eq_dec i (length (g_seps g))) as [->|Hni].
+          -- rewrite app_nth2 by lia. rewrite Nat.sub_diag. cbn [nth].
+             unfold bl. rewrite Hl. rewrite app_nth2 by lia. rewrite Nat.sub_diag. cbn [nth].
+             split; [|intros HS; rewrite app_length in HS; cbn [length] in HS; lia].
+             destruct cur as [|x0 cur0] eqn:Ec.
+             ++ unfold lk, s, last_key. cbn [last rev fst]. apply succ_le.
+             ++ rewrite <- (last_key_lk (x0 :: cur0) []) by discriminate. apply succ_le.
+          -- assert (Hi' : (i < length (g_seps g))%nat) by (unfold bl in Hi; rewrite app_length in Hi; cbn [length] in Hi; lia).
+             rewrite (app_nth1 (g_seps g) [s] [] Hi').
+             destruct cur as [|x0 cur0] eqn:Ec.
+             ++ (* empty table: no separators yet *) rewrite (Hcd eq_refl) in Hl. cbn in Hl. lia.
+             ++ unfold bl. exact (Hok i Hi').
+      + unfold bl. rewrite concat_app. cbn [concat]. rewrite app_nil_r. reflexivity.
+  Qed.
+End Close.
+
+(* ------------------------------------------------------------ Part 4: the written file is a well-formed table *)
+Lemma decode_bh_app h rest : bh_off h < 2 ^ 64 -> bh_len h < 2 ^ 64 ->
+  decode_bh (encode_bh h ++ rest) = BhOk h (lenN (encode_bh h)).
+Proof.
+  intros H1 H2. unfold decode_bh, encode_bh. rewrite <- app_assoc.
+  rewrite uvarint_put by exact H1. rewrite dropN_app. rewrite uvarint_put by exact H2.
+  destruct h as [o l]; cbn [bh_off bh_len]. rewrite lenN_app. reflexivity.
+Qed.
+
+Lemma encode_bh_len h : lenN (encode_bh h) <= 20.
+Proof.
+  unfold encode_bh. rewrite lenN_app.
+  pose proof (put_uvarint_length (bh_off h)). pose proof (put_uvarint_length (bh_len h)). lia.
+Qed.
+
+Lemma lenN_repeat {A} (x : A) n : lenN (repeat x n) = N.of_nat n.
+Proof. unfold lenN. rewrite repeat_length. reflexivity. Qed.
+
+Lemma block_build_len_pos ri b : 4 <= lenN (block_build ri b).
+Proof.
+  unfold block_build, bw_finish. rewrite lenN_app, lenN_flat_le32, lenN_app. change (lenN [_]) with 1. lia.
+Qed.
+
+Section Final.
+  Variable tp : tparams.
+  Hypothesis tp_ok : tparams_ok tp.
+  Variable crc : bytes -> N.
+  Hypothesis crc_bound : forall b, crc b < 2 ^ 32.
+  Variable compress : bytes -> bytes.
+  Variable decompress : bytes -> option bytes.
+  Hypothesis codec_ok : forall x, decompress (compress x) = Some x.
+  Variable fcontains : bytes -> N -> bytes -> bool.
+  Variable c : comparer.
+  Hypothesis c_ok : comparer_ok c.
+  Hypothesis empty_least : forall k, cmp c [] k <> Gt.
+  Variable blockSize : N.
+  Variable ri : N.
+  Hypothesis ri_pos : 1 <= ri.
+  Variable fgen : option (bytes * (list (N * list bytes) -> bytes)).
+
+  (* NoCompression: every block is in the file as it is, so the file length bounds every block *)
+  Local Notation snappy := false.
+  Local Notation wbytes := (wbytes tp crc compress ri snappy).
+  Local Notation plen := (plen tp crc compress ri snappy).
+  Local Notation handles_from := (handles_from tp crc compress ri snappy).
+  Local Notation out_of := (out_of tp crc compress ri snappy).
+
+  Lemma plen_pos b : plen b <> 0.
+  Proof.
+    unfold TableWriteProofs.plen, write_block. cbn [snd bh_len].
+    rewrite lenN_app. change (lenN [_]) with 1. pose proof (block_build_len_pos ri b). lia.
+  Qed.
+
+  Lemma wbytes_len b : lenN (wbytes b) = lenN (block_build ri b) + 5.
+  Proof.
+    unfold TableWriteProofs.wbytes, write_block. cbn [fst]. rewrite !lenN_app, lenN_le32. change (lenN [_]) with 1. lia.
+  Qed.
+
+  Lemma handles_nth bl : forall off j, (j < length bl)%nat ->
+    nth j (handles_from off bl) bh0 = mkBH (off + lenN (out_of (firstn j bl))) (plen (nth j bl [])).
+  Proof.
+    induction bl as [|b r IH]; intros off j Hj; cbn [length] in Hj; [lia|].
+    destruct j as [|j]; cbn [TableWriteProofs.handles_from nth firstn].
+    - unfold TableWriteProofs.out_of. cbn. rewrite N.add_0_r. reflexivity.
+    - rewrite IH by lia. unfold TableWriteProofs.out_of. cbn [map concat]. rewrite lenN_app. f_equal. lia.
+  Qed.
+
+  Lemma out_of_split bl j : (j < length bl)%nat ->
+    out_of bl = out_of (firstn j bl) ++ wbytes (nth j bl []) ++ out_of (skipn (S j) bl).
+  Proof.
+    intros Hj. unfold TableWriteProofs.out_of. rewrite (BlockEnc.split_nth bl j [] Hj) at 1.
+    rewrite map_app, concat_app. cbn [map concat]. reflexivity.
+  Qed.
+
+  Lemma wblock_eq off b :
+    write_block tp crc compress off (block_build ri b) snappy = (wbytes b, mkBH off (plen b)).
+  Proof. apply write_block_off. Qed.
+
+  (* reading data block j of a file that starts with the data blocks *)
+  Lemma fetch_written bl rest j verify : (j < length bl)%nat ->
+    lenN (out_of bl ++ rest) < 2 ^ 32 ->
+    read_block_at tp crc decompress (out_of bl ++ rest) (nth j (handles_from 0 bl) bh0) verify
+    = Ok (built ri (nth j bl [])).
+  Proof.
+    intros Hj Hsz. rewrite (handles_nth bl 0 j Hj), N.add_0_l.
+    rewrite (out_of_split bl j Hj), <- !app_assoc.
+    set (pre := out_of (firstn j bl)). set (b := nth j bl []).
+    pose proof (read_wblock tp tp_ok crc crc_bound compress decompress codec_ok pre (block_build ri b)
+                  (out_of (skipn (S j) bl) ++ rest) snappy verify) as R.
+    cbv zeta in R. rewrite (wblock_eq (lenN pre) b) in R. cbn [fst snd] in R.
+    assert (B : 2 ^ 32 < 2 ^ 62) by (apply N.pow_lt_mono_r; lia).
+    assert (Hw : lenN (wbytes b) < 2 ^ 32).
+    { rewrite (out_of_split bl j Hj), <- !app_assoc in Hsz. fold pre b in Hsz. rewrite !lenN_app in Hsz. lia. }
+    unfold read_block_at. rewrite R by lia. cbn [bind_res].
+    apply read_block_build; [exact ri_pos|]. rewrite wbytes_len in Hw. lia.
+  Qed.
+
+  (* ---------------- the shape of the file Close produces ---------------- *)
+  Definition foot_of (metaBH indexBH : bhandle) : bytes :=
+    let handles := encode_bh metaBH ++ encode_bh indexBH in
+    handles ++ repeat 0 (N.to_nat (tp_footerLen tp - lenN (tp_magic tp) - lenN handles)) ++ tp_magic tp.
+
+  Definition nbytes (content : bytes) : bytes := fst (write_block tp crc compress 0 content false).
+
+  Lemma nbytes_len content : lenN (nbytes content) = lenN content + 5.
+  Proof. unfold nbytes, write_block. cbn [fst]. rewrite !lenN_app, lenN_le32. change (lenN [_]) with 1. lia. Qed.
+
+  Lemma wb_plain off content :
+    write_block tp crc compress off content false = (nbytes content, mkBH off (lenN content)).
+  Proof.
+    rewrite write_block_off. unfold nbytes. f_equal. f_equal. unfold write_block. cbn [snd bh_len].
+    rewrite lenN_app. change (lenN [_]) with 1. lia.
+  Qed.
+
+  Lemma tw_close_shape w w2 :
+    w2 = tw_flush_pending c (if (0 <? bw_n (tw_data w)) || (tw_n w =? 0) then tw_finish_block tp crc compress false w else w) [] ->
+    tw_data w2 = mkBW [] 0 [] [] ->
+    exists F ml,
+      tw_close tp crc compress c ri false fgen w =
+      let out3 := tw_out w2 ++ F in
+      let M := block_build ri ml in
+      let I := bw_finish (tw_index w2) in
+      let metaBH := mkBH (lenN out3) (lenN M) in
+      let indexBH := mkBH (lenN (out3 ++ nbytes M)) (lenN I) in
+      ((out3 ++ nbytes M) ++ nbytes I) ++ foot_of metaBH indexBH.
+  Proof.
+    intros E2 Hdata. unfold tw_close. rewrite <- E2.
+    assert (Emw0 : bw_finish (tw_data w2) = block_build ri []) by (rewrite Hdata; reflexivity).
+    assert (Emw1 : forall k v, bw_finish (bw_append ri (tw_data w2) k v) = block_build ri [(k, v)])
+      by (intros k v; rewrite Hdata; reflexivity).
+    destruct fgen as [[name gen]|].
+    - set (content := gen (rev (tw_fblocks w2))).
+      destruct (0 <? lenN content) eqn:Epos.
+      + rewrite (wb_plain (lenN (tw_out w2)) content). cbn [bh_len]. rewrite Epos.
+        exists (nbytes content), [(filter_prefix ++ name, encode_bh (mkBH (lenN (tw_out w2)) (lenN content)))].
+        rewrite Emw1, !wb_plain. cbv zeta. unfold foot_of. rewrite <- !app_assoc. reflexivity.
+      + cbn [bh_len N.ltb N.compare]. exists [], [].
+        rewrite Emw0, !wb_plain. cbv zeta. unfold foot_of. rewrite !app_nil_r, <- !app_assoc. reflexivity.
+    - exists [], []. rewrite Emw0, !wb_plain. cbv zeta. unfold foot_of. rewrite !app_nil_r, <- !app_assoc. reflexivity.
+  Qed.
+
+  Lemma foot_len metaBH indexBH : lenN (foot_of metaBH indexBH) = tp_footerLen tp.
+  Proof.
+    destruct tp_ok as (_ & Hm & Hf & _). unfold foot_of. cbv zeta.
+    rewrite !lenN_app, lenN_repeat. pose proof (encode_bh_len metaBH). pose proof (encode_bh_len indexBH).
+    rewrite N2Nat.id. lia.
+  Qed.
+
+  (* NewReader on such a file, for a reader without a filter *)
+  Lemma open_written body M metaBH indexBH verify :
+    let file := body ++ foot_of metaBH indexBH in
+    bh_off metaBH < 2 ^ 64 -> bh_len metaBH < 2 ^ 64 -> bh_off indexBH < 2 ^ 64 -> bh_len indexBH < 2 ^ 64 ->
+    read_block_at tp crc decompress file metaBH true = Ok M ->
+    open_table tp crc decompress fcontains c file None verify =
+    mkTR (read_block_at tp crc decompress file indexBH true)
+         (fun h => read_block_at tp crc decompress file h verify) None (bh_off metaBH).
+  Proof.
+    intros file H1 H2 H3 H4 HM. destruct tp_ok as (_ & Hm & Hf & _).
+    pose proof (foot_len metaBH indexBH) as Hfl.
+    unfold open_table.
+    assert (Hsz : lenN file = lenN body + tp_footerLen tp) by (unfold file; rewrite lenN_app, Hfl; reflexivity).
+    replace (lenN file <? tp_footerLen tp) with false by lia.
+    replace (lenN file - tp_footerLen tp) with (lenN body) by lia.
+    assert (Efoot : dropN (lenN body) file = foot_of metaBH indexBH) by (unfold file; apply dropN_app).
+    rewrite !Efoot.
+    assert (Emagic : dropN (tp_footerLen tp - lenN (tp_magic tp)) (foot_of metaBH indexBH) = tp_magic tp).
+    { unfold foot_of. cbv zeta. rewrite app_assoc.
+      set (hp := (encode_bh metaBH ++ encode_bh indexBH) ++ repeat 0 (N.to_nat (tp_footerLen tp - lenN (tp_magic tp) - lenN (encode_bh metaBH ++ encode_bh indexBH)))).
+      assert (Ehp : lenN hp = tp_footerLen tp - lenN (tp_magic tp)).
+      { unfold hp. rewrite lenN_app, lenN_repeat, N2Nat.id. rewrite lenN_app.
+        pose proof (encode_bh_len metaBH). pose proof (encode_bh_len indexBH). lia. }
+      rewrite <- Ehp. rewrite <- (app_nil_r (tp_magic tp)) at 1. rewrite dropN_app. apply app_nil_r. }
+    rewrite Emagic.
+    assert (Ebeq : beq (tp_magic tp) (tp_magic tp) = true) by (apply beq_eq; reflexivity).
+    rewrite Ebeq. cbn [negb].
+    unfold foot_of at 1. cbv zeta. rewrite <- app_assoc. rewrite (decode_bh_app metaBH _ H1 H2).
+    unfold foot_of at 1. cbv zeta. rewrite <- app_assoc. rewrite dropN_app. rewrite (decode_bh_app indexBH _ H3 H4).
+    rewrite HM. reflexivity.
+  Qed.
+
+  (* ---------------- order facts inside and across blocks ---------------- *)
+  Lemma sorted_infix (a b d : list kv) : sorted c (a ++ b ++ d) -> sorted c b.
+  Proof.
+    intros Hs. apply sorted_nth_intro. intros i ki vi kj vj H1 H2.
+    apply (sorted_nth c c_ok _ (length a + i) (length a + S i) ki vi kj vj Hs); [lia| |].
+    - rewrite nth_error_app2 by lia. replace (length a + i - length a)%nat with i by lia.
+      rewrite nth_error_app1 by (apply nth_error_Some; rewrite H1; discriminate). exact H1.
+    - rewrite nth_error_app2 by lia. replace (length a + S i - length a)%nat with (S i) by lia.
+      rewrite nth_error_app1 by (apply nth_error_Some; rewrite H2; discriminate). exact H2.
+  Qed.
+
+  Lemma sorted_le_lk (b : list kv) x : sorted c b -> In x b -> cmp c (fst x) (lk b) <> Gt.
+  Proof.
+    intros Hs Hin. assert (Hne : b <> []) by (destruct b; [destruct Hin | discriminate]).
+    destruct (exists_last Hne) as (l & [kl vl] & ->). unfold lk. rewrite last_last. cbn [fst].
+    apply in_app_or in Hin as [Hin|[<-|[]]].
+    - apply (OrderProofs.lt_le c). apply (sorted_app_last tp crc compress c c_ok empty_least ri ri_pos false plen_pos l kl vl x Hs Hin).
+    - apply (OrderProofs.le_refl c c_ok).
+  Qed.
+
+  Lemma sorted_fk_le (b : list kv) x : sorted c b -> In x b -> cmp c (fk b) (fst x) <> Gt.
+  Proof.
+    intros Hs Hin. destruct b as [|[k0 v0] r]; [destruct Hin|]. unfold fk. cbn [hd fst].
+    destruct Hin as [<-|Hin]; [apply (OrderProofs.le_refl c c_ok)|].
+    apply (OrderProofs.lt_le c). apply In_nth_error in Hin as (i & Hi). destruct x as [kx vx].
+    apply (sorted_nth c c_ok ((k0, v0) :: r) 0 (S i) k0 v0 kx vx Hs); [lia | reflexivity | exact Hi].
+  Qed.
+
+  Lemma out_of_firstn_le bl i j : (i <= j)%nat -> lenN (out_of (firstn i bl)) <= lenN (out_of (firstn j bl)).
+  Proof.
+    intros Hij. replace j with (i + (j - i))%nat by lia. generalize (j - i)%nat as d. intros d. clear Hij.
+    revert i. induction bl as [|b r IH]; intros i.
+    - rewrite !firstn_nil. lia.
+    - destruct i as [|i]; cbn [plus firstn].
+      + unfold TableWriteProofs.out_of at 1. cbn [map concat]. change (lenN (@nil N)) with 0. lia.
+      + unfold TableWriteProofs.out_of in *. cbn [map concat]. rewrite !lenN_app. specialize (IH i). lia.
+  Qed.
+
+  Lemma out_of_firstn_le_all bl j : lenN (out_of (firstn j bl)) <= lenN (out_of bl).
+  Proof.
+    destruct (Nat.le_gt_cases j (length bl)) as [L|L].
+    - rewrite <- (firstn_all bl) at 2. apply out_of_firstn_le. exact L.
+    - rewrite firstn_all2 by lia. lia.
+  Qed.
+
+  (* ---------------- the theorem ---------------- *)
+  Theorem table_wf_of_write kvs file verify :
+    sorted c kvs ->
+    twrite tp crc compress c blockSize ri false fgen kvs = Some file ->
+    lenN file < 2 ^ 32 ->
+    exists blocks seps hs,
+      table_wf c (open_table tp crc decompress fcontains c file None verify) blocks seps hs /\
+      tkvs blocks = kvs.
+  Proof.
+    intros Hsorted Hw Hsize. unfold twrite in Hw.
+    destruct (append_all_inv tp crc compress c c_ok empty_least blockSize ri ri_pos false plen_pos kvs
+                tw_empty (mkG [] [] []) (winv_empty tp crc compress c ri ri_pos false) Hsorted)
+      as (w & g & Ew & Hinv & Ecat).
+    cbn [g_done g_cur concat app] in Ecat.
+    rewrite Ew in Hw. cbn [option_map] in Hw. injection Hw as Hfile.
+    destruct (close_state tp crc compress c c_ok empty_least ri ri_pos false plen_pos w g Hinv) as (bl & seps & Hcl & Ebl).
+    cbv zeta in Hcl.
+    set (w2 := tw_flush_pending c (if (0 <? bw_n (tw_data w)) || (tw_n w =? 0) then tw_finish_block tp crc compress false w else w) []) in *.
+    destruct (tw_close_shape w w2 eq_refl (cl_data _ _ _ _ _ _ _ _ _ Hcl)) as (F & ml & Eshape).
+    rewrite Eshape in Hfile. cbv zeta in Hfile.
+    rewrite (cl_out _ _ _ _ _ _ _ _ _ Hcl), (cl_index _ _ _ _ _ _ _ _ _ Hcl) in Hfile.
+    set (hs := handles_from 0 bl) in *.
+    set (out3 := out_of bl ++ F) in *.
+    set (M := block_build ri ml) in *.
+    set (I := bw_finish (index_of seps hs)) in *.
+    set (metaBH := mkBH (lenN out3) (lenN M)) in *.
+    set (indexBH := mkBH (lenN (out3 ++ nbytes M)) (lenN I)) in *.
+    assert (EI : I = block_build 1 (ientries seps hs)) by reflexivity.
+    assert (B64 : 2 ^ 32 < 2 ^ 64) by (apply N.pow_lt_mono_r; lia).
+    assert (B62 : 2 ^ 32 < 2 ^ 62) by (apply N.pow_lt_mono_r; lia).
+    (* sizes of the parts *)
+    assert (Hparts : lenN file = lenN (out_of bl) + lenN F + (lenN M + 5) + (lenN I + 5) + tp_footerLen tp).
+    { rewrite <- Hfile. rewrite !lenN_app, foot_len, !nbytes_len. unfold out3. rewrite lenN_app. lia. }
+    (* the metaindex block reads back *)
+    assert (HM : read_block_at tp crc decompress file metaBH true = Ok (built ri ml)).
+    { rewrite <- Hfile. rewrite <- !app_assoc.
+      pose proof (read_wblock tp tp_ok crc crc_bound compress decompress codec_ok out3 M
+                    (nbytes I ++ foot_of metaBH indexBH) false true) as R.
+      cbv zeta in R. rewrite (wb_plain (lenN out3) M) in R. cbn [fst snd] in R. fold metaBH in R.
+      unfold read_block_at. rewrite R by (rewrite nbytes_len; lia). cbn [bind_res].
+      apply read_block_build; [exact ri_pos | fold M; lia]. }
+    (* the index block reads back *)
+    assert (HI : read_block_at tp crc decompress file indexBH true = Ok (built 1 (ientries seps hs))).
+    { rewrite <- Hfile. rewrite <- (app_assoc (out3 ++ nbytes M)).
+      pose proof (read_wblock tp tp_ok crc crc_bound compress decompress codec_ok (out3 ++ nbytes M) I
+                    (foot_of metaBH indexBH) false true) as R.
+      cbv zeta in R. rewrite (wb_plain (lenN (out3 ++ nbytes M)) I) in R. cbn [fst snd] in R. fold indexBH in R.
+      unfold read_block_at. rewrite R by (rewrite nbytes_len; lia). cbn [bind_res]. rewrite EI.
+      apply read_block_build; [lia | rewrite <- EI; lia]. }
+    (* NewReader *)
+    assert (Hopen : open_table tp crc decompress fcontains c file None verify =
+                    mkTR (read_block_at tp crc decompress file indexBH true)
+                         (fun h => read_block_at tp crc decompress file h verify) None (bh_off metaBH)).
+    { rewrite <- Hfile. apply (open_written ((out3 ++ nbytes M) ++ nbytes I) (built ri ml) metaBH indexBH verify).
+      - cbn [metaBH bh_off]. unfold out3. rewrite lenN_app. lia.
+      - cbn [metaBH bh_len]. lia.
+      - cbn [indexBH bh_off]. rewrite lenN_app, nbytes_len. unfold out3. rewrite lenN_app. lia.
+      - cbn [indexBH bh_len]. lia.
+      - rewrite Hfile. exact HM. }
+    pose proof (cl_len _ _ _ _ _ _ _ _ _ Hcl) as Hlen.
+    pose proof (cl_ne _ _ _ _ _ _ _ _ _ Hcl) as Hblne.
+    assert (Hhl : length hs = length bl) by (unfold hs; apply handles_from_length).
+    assert (Hsort : sorted c (concat bl)) by (rewrite Ebl, Ecat; exact Hsorted).
+    assert (Hsb : forall j, (j < length bl)%nat -> sorted c (nth j bl [])).
+    { intros j Hj. rewrite (concat_split bl j Hj) in Hsort. apply (sorted_infix _ _ _ Hsort). }
+    exists bl, seps, hs. split; [|unfold tkvs; rewrite Ebl, Ecat; reflexivity].
+    rewrite Hopen. constructor; cbn [tr_index tr_fetch tr_filter tr_dataEnd].
+    - exact Hlen.
+    - exact Hhl.
+    - destruct bl; [congruence | cbn; lia].
+    - exists (built 1 (ientries seps hs)). split; [exact HI|].
+      exists (b_off 1 (ientries seps hs)), (b_ris 1 (ientries seps hs)).
+      apply build_layout; [lia | rewrite <- EI; lia].
+    - intros j Hj. exists (built ri (nth j bl [])). split.
+      + rewrite <- Hfile. unfold out3. rewrite <- !app_assoc.
+        apply fetch_written; [exact Hj|].
+        rewrite !app_assoc. fold out3. rewrite Hfile. exact Hsize.
+      + exists (b_off ri (nth j bl [])), (b_ris ri (nth j bl [])).
+        apply build_layout; [exact ri_pos|].
+        pose proof (out_of_split bl j Hj) as Es. apply (f_equal (@lenN N)) in Es.
+        rewrite !lenN_app, wbytes_len in Es. lia.
+    - intros j Hj. unfold hs. rewrite (handles_nth bl 0 j Hj). cbn [bh_off bh_len].
+      pose proof (out_of_firstn_le_all bl j). pose proof (out_of_split bl j Hj) as Es. apply (f_equal (@lenN N)) in Es.
+      rewrite !lenN_app, wbytes_len in Es.
+      assert (plen (nth j bl []) = lenN (block_build ri (nth j bl []))).
+      { unfold TableWriteProofs.plen, write_block. cbn [snd bh_len]. rewrite lenN_app. change (lenN [_]) with 1. lia. }
+      split; lia.
+    - exact Hsort.
+    - destruct (cl_blocks _ _ _ _ _ _ _ _ _ Hcl) as [H|H]; [left | right; exact H].
+      intros j Hj. rewrite Forall_forall in H. apply H. apply nth_In. exact Hj.
+    - intros j x Hj Hin. destruct (cl_law _ _ _ _ _ _ _ _ _ Hcl j Hj) as [H1 _].
+      apply (OrderProofs.le_trans c c_ok _ (lk (nth j bl []))); [|exact H1].
+      apply sorted_le_lk; [apply Hsb; exact Hj | exact Hin].
+    - intros j x Hj Hin. destruct (cl_law _ _ _ _ _ _ _ _ _ Hcl j ltac:(lia)) as [_ H2]. specialize (H2 Hj).
+      apply (OrderProofs.lt_le_trans c c_ok _ (fk (nth (S j) bl []))); [exact H2|].
+      apply sorted_fk_le; [apply Hsb; exact Hj | exact Hin].
+    - intros i j Hij Hj. unfold hs. rewrite (handles_nth bl 0 i ltac:(lia)), (handles_nth bl 0 j Hj). cbn [bh_off].
+      pose proof (out_of_firstn_le bl i j Hij). lia.
+    - intros j Hj. unfold hs. rewrite (handles_nth bl 0 j Hj). cbn [bh_off metaBH].
+      unfold out3. rewrite lenN_app. pose proof (out_of_firstn_le_all bl j). lia.
+  Qed.
+End Final.
+
+(* ------------------------------------------------------------ the round trip, end to end *)
+From GL Require Import Codec.TableIterProofs.
+
+Theorem table_roundtrip tp crc compress decompress fcontains c blockSize ri fgen kvs file verify strict :
+  tparams_ok tp -> (forall b, crc b < 2 ^ 32) -> (forall x, decompress (compress x) = Some x) ->
+  comparer_ok c -> (forall k, cmp c [] k <> Gt) -> 1 <= ri ->
+  sorted c kvs ->
+  twrite tp crc compress c blockSize ri false fgen kvs = Some file -> lenN file < 2 ^ 32 ->
+  let rd := open_table tp crc decompress fcontains c file None verify in
+  (forall k v, In (k, v) kvs -> tget c rd k = FFound k v) /\
+  (forall k, (forall v, ~ In (k, v) kvs) -> tget c rd k = FNotFound) /\
+  (forall key, tfind c rd key false =
+     match first_ge c key kvs 0 with
+     | Some i => match nth_error kvs i with Some (k, v) => FFound k v | None => FOther end
+     | None => FNotFound
+     end) /\
+  (exists t, new_titer c rd None strict = inr t /\
+     forall ops, fst (ti_run c rd t ops) = c_run c kvs CSOI ops) /\
+  (forall k1 k2, cmp c k1 k2 <> Gt ->
+     exists o1 o2, toffset_of c rd k1 = Ok o1 /\ toffset_of c rd k2 = Ok o2 /\ o1 <= o2).
+Proof.
+  intros Htp Hcrc Hcodec Hc Hel Hri Hs Hw Hsz rd.
+  destruct (table_wf_of_write tp Htp crc Hcrc compress decompress Hcodec fcontains c Hc Hel blockSize ri Hri fgen kvs file verify Hs Hw Hsz)
+    as (blocks & seps & hs & Hwf & Ek).
+  fold rd in Hwf. rewrite <- Ek.
+  split; [intros k v; apply (tget_present c Hc rd blocks seps hs Hwf)|].
+  split; [intros k; apply (tget_absent c Hc rd blocks seps hs Hwf)|].
+  split; [intros key; apply (tfind_first_ge c Hc rd blocks seps hs Hwf)|].
+  split; [apply (table_iter_refines c rd blocks seps hs strict Hc Hwf)|].
+  intros k1 k2. apply (toffset_mono c Hc rd blocks seps hs Hwf).
+Qed.
